@@ -38,6 +38,9 @@ func (s *Shard) Open() error {
 	if err := s.blobStor.Open(false); err != nil {
 		return fmt.Errorf("could not open %T: %w", s.blobStor, err)
 	}
+	// Also when the shard is opened again after Close (the mode is kept then):
+	// the next mode switch has to know what the storage is opened as.
+	s.blobStorRO, s.blobStorStale = false, false
 
 	metaErr := s.metaBase.Open(false)
 
